@@ -238,6 +238,7 @@ def client_text(tag, desc, j, cl):
         out.append(f'(defmacro own{j} [] "cli{j}:own:v{cl["ver"]}")')
         out.append(f"(setv ownval (own{j}))")
     cl["_local"] = None
+    cl["_local_all"] = []
     if cl["local_require"] and cl["requires"]:
         r = cl["requires"][0]
         lib = desc["libs"][r["lib"]]
@@ -247,6 +248,8 @@ def client_text(tag, desc, j, cl):
             form = f"(loc.{n[0]})" if m["kind"] == "const" else f"(loc.{n[0]} 77)"
             out.append(f"(defn localreq [] (require {tag}lib{r['lib']} :as loc) {form})")
             cl["_local"] = [r["lib"], n[0]]
+            # a local require compiles to a run-time require of exactly the names resolved at compile time
+            cl["_local_all"] = list(n)
     out.append(f'(setv plain {cl["ver"] * 7})')
     cl["_textver"] = cl["ver"]
     cl["_kinds"] = {(li, m["name"]): m["kind"] for li, lib in enumerate(desc["libs"]) for m in lib["macros"]}
@@ -456,7 +459,7 @@ def execute(desc):
                 lib = libs[li]
                 used = {n for c in clients for (_, l2, n) in c.get("_uses", []) if l2 == li}
                 used |= {n for c in clients for r in c["requires"] if r["lib"] == li for n, _ in r.get("names", [])}
-                used |= {c["_local"][1] for c in clients if c.get("_local") and c["_local"][0] == li}
+                used |= {n for c in clients if c.get("_local") and c["_local"][0] == li for n in c.get("_local_all", [])}
                 changed = False
                 if kind == "lib_add":
                     nm = "%snew%d" % ("ab"[li], lib["ver"] + len(lib["macros"]))
